@@ -10,6 +10,18 @@
 #include "verif.h"
 #include "pomerol/GreensFunctionPart.h"
 #include "pomerol/TwoParticleGFPart.h"
+#ifndef KIND
+#define KIND 0
+#endif
+#ifdef VERIF_NATIVE
+// Term::operator+= is declared inline inside the library's .cpp files; the native replay build therefore compiles the
+// library translation unit that defines it together with this harness
+#if KIND == 1
+#include "pomerol/TwoParticleGFPart.cpp"
+#else
+#include "pomerol/GreensFunctionPart.cpp"
+#endif
+#endif
 #ifndef NADD
 #define NADD 3
 #endif
